@@ -361,20 +361,23 @@ def _not_first_of_scope(p, i):
 @op("D04", "MISALIGNED_VAR_DECL")
 def D04(p):
     for i, ln in enumerate(p.lines):
-        if ln.kind in ("decl", "member", "global") and i > 0 and p.lines[i - 1].kind == ln.kind and p.lines[i - 1].fn == ln.fn:
+        if ln.kind in ("decl", "member", "global", "typedef") and i > 0 and p.lines[i - 1].kind == ln.kind and p.lines[i - 1].fn == ln.fn:
             al = [k for k, x in enumerate(ln.lex) if "align" in x.tags]
             if not al:
                 continue
+            form = ""
+            if ln.kind == "typedef":     # by declarator form: plain / pointer / function pointer / array
+                form = ":fptr" if any(x.t == "(" for x in ln.lex) else ":array" if any(x.t == "[" for x in ln.lex) else ":ptr" if any("ptr-decl" in x.tags for x in ln.lex) else ":plain"
 
             def ap(q, i=i, k=al[0]):
                 q.lines[i].lex.insert(k, Lx("\t", "tab"))
                 return i
-            yield ln.kind + ":extra-tab", ap
+            yield ln.kind + form + ":extra-tab", ap
             if len(al) >= 2:
                 def ap2(q, i=i, k=al[0]):
                     del q.lines[i].lex[k]
                     return i
-                yield ln.kind + ":one-less", ap2
+                yield ln.kind + form + ":one-less", ap2
 
 
 @op("D05", "SPACE_REPLACE_TAB")
